@@ -87,6 +87,8 @@ def witness_cases():
         # F14c: live provider map keyed by lower-cased name, stored objects by raw name
         case([op("addprov", name="Pa", user="u1"), op("delprov", name="pa"), R]),
         case([op("addprov", name="pa", user="u1"), op("addprov", name="Pa", user="u2"), R, op("delprov", name="pa"), R]),
+        # a provider with an upper-case letter must stay resolvable by the lower-cased name its consumers use
+        case([op("addprov", name="Pb", user="u2"), op("addprov", name="pa", user="u1"), R, op("addprov", name="Pa", user="u3"), R]),
         # F14d: full-sync state is memory only
         case([op("create", ds=1), op("w", ds=1, es=[[1, 10, -1, 0], [2, 11, 1, 0]]),
               op("fsstart", ds=1, fs="x", es=[[1, 10, -1, 0]]), R, op("fsend", ds=1, fs="x", es=[])]),
@@ -338,6 +340,8 @@ def project(s):
         sec,
         provs,
         tp,
+        [[PROV_CODES.get(r[0], -7)] + ([0, 0] if r[1] == "<none>" else [1, int(r[1][1:]) if re.fullmatch(r"u\d+", r[1]) else -7])
+         for r in s["res"]],
         sorted([list(r) for r in s["fs"]]),
     ]
     for r in ds:
@@ -475,8 +479,17 @@ def explain(b, a, seen):
                 found.append("F14a")
             else:
                 return None
-        elif k == "tp":
+        elif k in ("tp", "res"):
+            # F14c: the stored list is unchanged and the live map after the restart is exactly the stored objects
+            # registered in key order under their lower-cased names, every stored provider resolvable by its consumers
             if b["provs"] != a["provs"]:
+                return None
+            want = {}
+            for p in a["provs"]:
+                want[p[0].lower()] = p[2]
+            if {p[0]: p[1] for p in a["tp"]} != want or len(a["tp"]) != len(want):
+                return None
+            if [[p[0], want[p[0].lower()]] for p in a["provs"]] != a.get("res"):
                 return None
             found.append("F14c")
         elif k == "fs":
